@@ -1,4 +1,4 @@
-import Prom.Lemmas.C07Aux
+import Prom.Lemmas.GatherDet
 
 namespace Prom.C07
 open Prom
@@ -73,6 +73,66 @@ theorem common_pairs_order_free (m m' : List (Str × Str)) (hp : m.Perm m')
     -- keys are unique, so equal names mean the same entry
     have : p = q := eq_of_nodup_map (·.1) hk hp1 hq1 hn
     rw [this]
+
+/-- **samples_sorted** — within every gathered family the samples are in the order of the code's
+    comparator (number of labels, then label values position by position, then timestamp), which is a
+    total preorder (`sampleLe_trans`, `sampleLe_total`); the common labels are appended afterwards -/
+theorem samples_sorted (pref : Option Str) (labels : Option (List (Str × Str))) (collected : List Family)
+    (f : Family) (hf : f ∈ gatherFams pref labels collected) :
+    ∃ ss : List Sample, ss.Pairwise (fun a b => sampleLe a b = true) ∧
+      f.samples = ss.map fun s => { s with labels := s.labels ++ commonPairs labels } := by
+  unfold gatherFams at hf
+  simp only [List.mem_map] at hf
+  obtain ⟨g, _, rfl⟩ := hf
+  exact ⟨stableSortBy sampleLe g.samples, stableSortBy_pairwise sampleLe_trans sampleLe_total _, rfl⟩
+
+/-- collectors registered under one name agree on help and type (guaranteed for library collectors
+    of one kind by the registry's dimension check, C06 / C14) -/
+def SameAttrs (c : List Family) : Prop :=
+  ∀ f ∈ c, ∀ g ∈ c, f.samples ≠ [] → g.samples ≠ [] → f.name = g.name → f.help = g.help ∧ f.ty = g.ty
+
+/-- under one name no two samples compare equal both ways unless they are the same sample (true when
+    the label-value tuples under a name are pairwise distinct: C05 / C06) -/
+def DistinctKeys (c : List Family) : Prop :=
+  ∀ n, ∀ a ∈ samplesOf n c, ∀ b ∈ samplesOf n c, sampleLe a b = true → sampleLe b a = true → a = b
+
+/-- **deterministic** — for every permutation of what the collectors return (= every registration
+    order and every iteration order of the collector hash map, i.e. every hash seed) `gather()` returns
+    the same list of families: same names in the same order, same help and type, same samples in the
+    same order. -/
+theorem deterministic (pref : Option Str) (labels : Option (List (Str × Str))) (c c' : List Family)
+    (hp : c.Perm c') (ha : SameAttrs c) (hd : DistinctKeys c) :
+    gatherFams pref labels c = gatherFams pref labels c' := by
+  have hnames : (merged c).map (·.name) = (merged c').map (·.name) := by
+    apply strict_sorted_ext _ _ (merged_names_strict c) (merged_names_strict c')
+    intro x
+    rw [merged_names_iff, merged_names_iff]
+    constructor
+    · rintro ⟨f, hf, h1, h2⟩; exact ⟨f, hp.mem_iff.1 hf, h1, h2⟩
+    · rintro ⟨f, hf, h1, h2⟩; exact ⟨f, hp.mem_iff.2 hf, h1, h2⟩
+  show List.map _ (merged c) = List.map _ (merged c')
+  apply map_eq_of_names _ _ _ hnames
+  intro g hg g' hg' hn
+  obtain ⟨f, hf, hfne, hfn, hfh, hft⟩ := merged_attrs c g hg
+  obtain ⟨f', hf', hfne', hfn', hfh', hft'⟩ := merged_attrs c' g' hg'
+  have hf'c : f' ∈ c := hp.mem_iff.2 hf'
+  obtain ⟨hh, ht⟩ := ha f hf f' hf'c hfne hfne' (by rw [hfn, hfn', hn])
+  have hsamp : g.samples.Perm g'.samples := by
+    have e1 := samplesOf_of_mem (merged c) (merged_names_strict c) g hg
+    have e2 := samplesOf_of_mem (merged c') (merged_names_strict c') g' hg'
+    rw [← e1, ← e2, hn]
+    exact (complete_exactly_once g'.name c).trans ((samplesOf_perm g'.name hp).trans (complete_exactly_once g'.name c').symm)
+  have hsort : stableSortBy sampleLe g.samples = stableSortBy sampleLe g'.samples := by
+    apply stableSortBy_perm_eq sampleLe_trans sampleLe_total hsamp
+    intro a b ha' hb' h1 h2
+    have e1 := samplesOf_of_mem (merged c) (merged_names_strict c) g hg
+    have hma : a ∈ samplesOf g.name c := (complete_exactly_once g.name c).subset (by rw [e1]; exact ha')
+    have hmb : b ∈ samplesOf g.name c := (complete_exactly_once g.name c).subset (by rw [e1]; exact hb')
+    exact hd g.name a hma b hmb h1 h2
+  simp only [hn, hsort]
+  have : g.help = g'.help := by rw [← hfh, ← hfh', hh]
+  have : g.ty = g'.ty := by rw [← hft, ← hft', ht]
+  cases g; cases g'; simp_all
 
 /-- non-vacuity: two collectors under one name, one under another, given in two orders -/
 def fA : Family := ⟨strOfString "m", strOfString "h", .counter, [⟨[⟨strOfString "k", strOfString "2"⟩], .counter 1, 0⟩]⟩
